@@ -107,6 +107,7 @@ type Config struct {
 	MaxSteps        int           // scheduling steps
 	MaxTime         time.Duration // virtual time
 	Settle          time.Duration // virtual time the world may keep running after the root thread returned
+	MaxEarly        time.Duration // how far ahead of the clock a timer may be fired while threads are runnable (default 2s)
 	NoReleasePoints bool          // do not make Unlock / Done / close scheduling points (fewer interleavings)
 	Trace           bool
 }
@@ -137,6 +138,9 @@ func Run(cfg Config, prefix []int, scenario func()) *Result {
 	}
 	if cfg.Settle == 0 {
 		cfg.Settle = 30 * time.Second
+	}
+	if cfg.MaxEarly == 0 {
+		cfg.MaxEarly = 2 * time.Second
 	}
 	s := &Sched{ctl: make(chan struct{}), chans: map[uintptr]*vchan{}, prefix: prefix, cfg: cfg}
 	S = s
@@ -282,6 +286,11 @@ func (s *Sched) loop() {
 					}
 				}
 				s.res.Deadlock = strings.Join(w, "; ")
+				if s.cfg.Trace {
+					buf := make([]byte, 1<<20)
+					n := runtime.Stack(buf, true)
+					s.res.Log = append(s.res.Log, "ALL STACKS AT DEADLOCK:\n"+string(buf[:n]))
+				}
 				return
 			}
 			if !s.fireNext() {
@@ -302,7 +311,10 @@ func (s *Sched) loop() {
 			}
 		}
 		n := len(run)
-		if len(s.timers) > 0 {
+		if len(s.timers) > 0 && time.Duration(s.timers[0].when-s.now) <= s.cfg.MaxEarly {
+			// Early firing models threads that are slow relative to a timer; it is only offered for
+			// timers due within MaxEarly, so that an execution never starves runnable threads for
+			// longer than that (time-bound oracles allow for this slack).
 			// separate binary choice so that thread and timer deviations are bounded independently
 			if s.decide(KTimer, 2, false, "") == 1 {
 				if !s.fireNext() {
@@ -354,6 +366,9 @@ func (s *Sched) point(label string) *thread {
 func (s *Sched) block(t *thread, on string) {
 	t.state = tsBlocked
 	t.waitOn = on
+	if s.cfg.Trace {
+		t.waitOn = on + " @ " + frames()
+	}
 	s.yield(t)
 }
 
@@ -482,4 +497,18 @@ func WaitIdle() {
 	t := s.point("wait-idle")
 	s.idleWaiters = append(s.idleWaiters, t)
 	s.block(t, "wait-idle")
+}
+
+// DumpBlocked lists the blocked threads and what they wait on (debugging aid for scenarios).
+func DumpBlocked() string {
+	s := S
+	if s == nil {
+		return ""
+	}
+	var w []string
+	for _, t := range s.threads {
+		st := []string{"runnable", "blocked", "done"}[t.state]
+		w = append(w, fmt.Sprintf("t%d(%s) %s: %s", t.id, t.name, st, t.waitOn))
+	}
+	return strings.Join(w, "\n")
 }
